@@ -572,7 +572,7 @@ func c06Additive(c *Ctx, a *sketchAnchors) {
 						if t.Op == "call" && len(t.Args) > 0 && t.Args[0].isRecv() {
 							fn, _ := in.Common().Value.(*ssa.Function)
 							generic := c.P.Func(pkgStore, "DecodeAndMergeWith")
-							okCall := fn == pr.compact || fn == pr.sort || fn == generic || fn != nil && (fn.Name() == "page" || fn.Name() == "pageIndex" || fn.Name() == "lineIndex" || fn.Name() == "Add" || fn.Name() == "AddWithCount")
+							okCall := fn == pr.compact || fn == pr.sort || fn == generic || fn != nil && (canonName(fn) == "page" || canonName(fn) == "pageIndex" || canonName(fn) == "lineIndex" || fn.Name() == "Add" || fn.Name() == "AddWithCount")
 							n++
 							c.R.check(okCall, rule, fmt.Sprintf("%s/call/%s", shortFn(f), fn.Name()), shortFn(f), c.ipos(in), "only additive entry points and the representation routines (page allocator, compaction) are used while decoding", t.Sym)
 						}
